@@ -130,6 +130,7 @@ pub fn mpmc_jobs(thorough: bool, finish: bool) -> Vec<Job> {
         v.push(job(Cfg::new("mpmc.shGrow", &[("cap", cap), ("ks", 1), ("kr", 1), ("values", 2), ("stream", 1), ("handles", 2)]), finish, thorough));
     }
     v.push(job(Cfg::new("mpmc.shFix", &[("cap", 1), ("ks", 2), ("kr", 1), ("values", 3), ("stream", 0), ("handles", 2)]), finish, thorough));
+    v.push(job(Cfg::new("mpmc.shFix", &[("cap", 2), ("ks", 1), ("kr", 0), ("values", 3), ("stream", 1), ("handles", 1)]), finish, thorough));
     v.push(job(Cfg::new("mpmc.arrL3", &[("cap", 3), ("ks", 2), ("kr", 1), ("values", 4), ("stream", 0)]), finish, thorough));
     if thorough {
         v.push(job(Cfg::new("mpmc.arrL1", &[("cap", 1), ("ks", 3), ("kr", 3), ("values", 4), ("stream", 0)]), finish, true));
@@ -166,6 +167,21 @@ pub fn ds_jobs(thorough: bool) -> Vec<Job> {
             v.push(job(Cfg::new("ds.heap", &[("n", 7), ("fixed_keys", fk)]), false, true));
         }
         v.push(job(Cfg::new("ds.heap", &[("n", 4), ("key_values", 4)]), false, true));
+    }
+    v
+}
+
+/// N = 0..n parked futures, one mass wake-up, poll all (sys_burst.rs); `kinds` selects the primitives
+pub fn burst_jobs(thorough: bool, kinds: &[i64]) -> Vec<Job> {
+    let mut v = vec![];
+    let n = if thorough { 64 } else { 40 };
+    for &k in kinds {
+        if k == 1 {
+            v.push(job(Cfg::new("burst", &[("kind", 1), ("fair", 1), ("n", n)]), false, thorough));
+            v.push(job(Cfg::new("burst", &[("kind", 1), ("fair", 0), ("n", n)]), false, thorough));
+        } else {
+            v.push(job(Cfg::new("burst", &[("kind", k), ("n", n)]), false, thorough));
+        }
     }
     v
 }
@@ -242,6 +258,7 @@ pub fn miri_jobs(prop: &str) -> Vec<Job> {
 
 pub fn all_jobs(thorough: bool) -> Vec<Job> {
     let mut v = vec![];
+    v.extend(burst_jobs(thorough, &[0, 1, 2, 3, 4, 5, 6, 7]));
     v.extend(wide_jobs(thorough));
     v.extend(mutex_jobs(thorough, false));
     v.extend(sem_jobs(thorough, false));
@@ -269,22 +286,40 @@ pub fn plan(prop: &str, tier: &str) -> Vec<Job> {
             let mut v = mpmc_jobs(t, false);
             v.extend(oneshot_jobs(t));
             v.extend(state_jobs(t));
+            v.extend(burst_jobs(t, &[2, 3]));
             v
         }
-        "C15" => timer_jobs(t),
+        "C15" => {
+            let mut v = timer_jobs(t);
+            v.extend(burst_jobs(t, &[7]));
+            v
+        }
         "C08" | "C10" => mpmc_jobs(t, true),
         "C09" => mpmc_jobs(t, false),
         "C14" => {
             let mut v = event_jobs(t);
             v.push(job(Cfg::new("event.local", &[("set", 0), ("k", if t { 7 } else { 6 })]), false, t));
+            v.extend(burst_jobs(t, &[0]));
             v
         }
-        "C12" => oneshot_jobs(t),
-        "C13" => state_jobs(t),
+        "C12" => {
+            let mut v = oneshot_jobs(t);
+            v.extend(burst_jobs(t, &[4, 5]));
+            v
+        }
+        "C13" => {
+            let mut v = state_jobs(t);
+            v.extend(burst_jobs(t, &[6]));
+            v
+        }
         "C02" => mutex_jobs(t, false),
         "C03" | "C04" => mutex_jobs(t, true),
         "C05" | "C07" => sem_jobs(t, false),
-        "C06" => sem_jobs(t, true),
+        "C06" => {
+            let mut v = sem_jobs(t, true);
+            v.extend(burst_jobs(t, &[1]));
+            v
+        }
         _ => vec![],
     }
 }
